@@ -6,6 +6,7 @@ rm -rf build/evidence.keep; cp -r evidence build/evidence.keep
 git -C /repo diff --quiet || { echo "/repo has uncommitted changes"; exit 2; }
 git -C /repo apply $(realpath $seed)/patch.diff || { echo APPLY-FAILED; exit 2; }
 for p in "$@"; do
+  case $p in C[0-9][0-9]) ;; *) continue;; esac
   ./check $p > build/seedrun_$p.out 2>&1; rc=$?
   echo "== $(basename $seed) vs $p: rc=$rc"; grep -E "^VIOLATION|^  failed obligation|^UNDECIDED|^OK|^KNOWN" build/seedrun_$p.out | cut -c1-260 | head -8
 done
